@@ -162,7 +162,9 @@ def _old_check_reg_targets():
 def post_import():
     """Patches that need sktime imported; asserts we are running /repo's sktime."""
     import sktime
-    assert sktime.__file__.startswith("/repo/") and sktime.__version__ == "0.6.0", (
+    import os
+    repo = os.environ.get("VERIF_REPO", "/repo").rstrip("/") + "/"
+    assert sktime.__file__.startswith(repo) and sktime.__version__ == "0.6.0", (
         "harness error: wrong sktime on path: %s %s" % (sktime.__file__, sktime.__version__))
     try:
         import sktime.performance_metrics.forecasting._functions as F
